@@ -210,36 +210,45 @@ class Lab:
                           for f in sorted(os.listdir(str(cache.DIR)))}
         self._reference_objects()
         self.work = pathlib.Path(self.root, "inproc", self.version_dir)
+        self._extend_reference()
 
     def _reference_objects(self):
-        """What compile_model / compile_dvt build from the data files (captured at cache.dump)."""
-        import lingpy.cache as cache
-        import lingpy.data.derive as derive
-        captured = {}
-        orig = cache.dump
-        cache.dump = lambda data, filename, d=None: captured.__setitem__(filename + ".pkl", data)
-        try:
-            for st in self.steps:
-                if st["kind"] == "dvt":
-                    derive.compile_dvt(st["arg"])
-                else:
-                    mdir = os.path.join(self.src, "lingpy", "data", "models", st["arg"])
-                    if os.path.isfile(os.path.join(mdir, "scorer")) and not os.path.isfile(os.path.join(mdir, "matrix")):
-                        # compile_model would write a `matrix` file into the package data: never do that
-                        raise RuntimeError("model %s has a scorer tree but no matrix: outside the modelled "
-                                           "fragment (compiling it writes into the package)" % st["arg"])
-                    derive.compile_model(st["arg"])
-        finally:
-            cache.dump = orig
-        self.ref_digest = {label_of_file(f): digest(o) for f, o in captured.items()}
-        # the bytes the first start left must be the pickles of exactly these objects
-        for f, b in self.ref_bytes.items():
-            lab = label_of_file(f)
-            if lab not in self.ref_digest or digest(pickle.loads(b)) != self.ref_digest[lab]:
-                raise RuntimeError("reference cache file %s does not hold the object built from the data files" % f)
-        missing = [f for f in captured if f not in self.ref_bytes]
+        """Reference = what the data files say (source_objects: no lingpy code involved).  The files the
+        first start left must be the pickles of exactly these objects, over ALL keys."""
+        self.src_canon = source_objects(self.src, self.dirs)
+        self.ref_digest = {lab: canon_digest(c) for lab, c in self.src_canon.items()}
+        self._check_reference_files(self.ref_bytes, "the start on an absent cache directory")
+        need = {("dvt_el" if s["arg"] in ("el", "evolaemp") else "dvt") + ".pkl" if s["kind"] == "dvt"
+                else s["arg"] + ".converter.pkl" for s in self.steps}
+        missing = sorted(need - set(self.ref_bytes))
         if missing:
             raise RuntimeError("the first start did not write %s" % missing)
+
+    def _check_reference_files(self, files, who):
+        for f, b in sorted(files.items()):
+            lab = label_of_file(f)
+            if lab not in self.ref_digest:
+                raise RuntimeError("%s wrote %s, for which the data files define no object" % (who, f))
+            obj = pickle.loads(b)
+            if digest(obj) != self.ref_digest[lab]:
+                raise RuntimeError("%s wrote %s, whose content differs from what the data files define: %s"
+                                   % (who, f, describe_difference(canon(obj), self.src_canon[lab])))
+
+    def _extend_reference(self):
+        """The entries only the calls outside the import sequence use (dvt_el, the *_el models, ...):
+        built once on top of the reference cache by making every call of the pool."""
+        self.set_state(self.work, {}, False)
+        r = self.start_inproc(self.work, ops=self.pool)
+        if not r["ok"]:
+            raise RuntimeError("on an intact cache the calls %s failed: %s" % (self.pool, r["error"]))
+        d = str(self.work)
+        allf = {f: open(os.path.join(d, f), "rb").read() for f in sorted(os.listdir(d))}
+        for f, b in self.ref_bytes.items():
+            if allf.get(f) != b:
+                raise RuntimeError("the calls %s rewrote the intact entry %s" % (self.pool, f))
+        self._check_reference_files(allf, "the calls outside the import sequence")
+        self.import_files = sorted(self.ref_bytes)          # what a plain start writes
+        self.ref_bytes = allf
 
     # -- labelling ---------------------------------------------------------------------------
     def content(self, fname, b):
@@ -302,7 +311,9 @@ class Lab:
             shutil.rmtree(os.path.dirname(d) if rmdir == "parent" else d, ignore_errors=True)
 
     # -- in-process start ----------------------------------------------------------------------
-    def start_inproc(self, d):
+    def start_inproc(self, d, ops=None):
+        """ops=None: re-execute the module-level code of settings.py; else make the given calls
+        [("dvt", path) | ("model", name)] in order (an exception ends the sequence)."""
         import lingpy.cache as cache
         import lingpy.data.model as M
         import lingpy.settings as S
@@ -355,7 +366,14 @@ class Lab:
             M.compile_model, M.compile_dvt, M.load_dvt = cm, cd, ldvt
             M.Model.__init__ = init
             try:
-                importlib.reload(S)
+                if ops is None:
+                    importlib.reload(S)
+                else:
+                    for kind, arg in ops:
+                        if kind == "dvt":
+                            M.load_dvt(arg)
+                        else:
+                            M.Model(arg)
             except BaseException as e:     # noqa: whatever leaves the module-level code
                 if isinstance(e, (KeyboardInterrupt, SystemExit)):
                     raise
@@ -375,10 +393,12 @@ class Lab:
                 vals.append(("model", self.val_label(0, arg, digest(cv)),
                              None if sc is None else self.val_label(1, arg, digest(sc))))
         dir_after, files_after = self.snapshot(d)
-        return {"ok": ok, "error": err, "events": ev, "vals": vals, "dir": dir_after, "files": files_after}
+        return {"ok": ok, "error": err, "events": ev, "vals": vals, "dir": dir_after, "files": files_after,
+                "seq": "import" if ops is None else [list(o) for o in ops]}
 
     # -- subprocess start ----------------------------------------------------------------------
-    def start_sub(self, home, hashseed):
+    def start_sub(self, home, hashseed, ops=None):
+        ops = [list(o) for o in (ops or [])]
         d = os.path.join(home, self.version_dir)
         before = {}
         if os.path.isdir(d):
@@ -387,8 +407,8 @@ class Lab:
                 before[f] = True
         e = self.env.subprocess_env(hashseed, cache=home)
         e["PYTHONPATH"] = self.src + os.pathsep + self.env.VERIF
-        req = json.dumps([{"kind": s["kind"], "arg": s["arg"], "key": s["key"], "targets": s["targets"]}
-                          for s in self.steps])
+        req = json.dumps({"steps": [{"kind": s["kind"], "arg": s["arg"], "key": s["key"], "targets": s["targets"]}
+                                    for s in self.steps], "ops": ops})
         p = subprocess.run([self.env.PY, "-m", "harness.comp.cache", "--child", req], cwd=self.env.VERIF, env=e,
                            capture_output=True, text=True, timeout=300)
         out = None
@@ -399,17 +419,18 @@ class Lab:
             out = {"ok": False, "error": "child died rc=%s: %s" % (p.returncode, p.stderr[-600:]), "vals": []}
         vals = []
         if out["ok"]:
-            for st, v in zip(self.steps, out["vals"]):
-                if st["kind"] == "dvt":
-                    vals.append(("dvt", self.val_label(2, dvt_dir(st["arg"]), v[0])))
+            calls = [(s["kind"], s["arg"]) for s in self.steps] + [tuple(o) for o in ops]
+            for (kind, arg), v in zip(calls, out["vals"]):
+                if kind == "dvt":
+                    vals.append(("dvt", self.val_label(2, dvt_dir(arg), v[0])))
                 else:
-                    vals.append(("model", self.val_label(0, st["arg"], v[0]),
-                                 None if v[1] is None else self.val_label(1, st["arg"], v[1])))
+                    vals.append(("model", self.val_label(0, arg, v[0]),
+                                 None if v[1] is None else self.val_label(1, arg, v[1])))
         dir_after, files_after = self.snapshot(d)
         written = sorted(f for f in files_after if os.stat(os.path.join(d, f)).st_mtime != OLD)
         ev = [("dump", f[:-4] if f.endswith(".pkl") else f) for f in written]
         return {"ok": bool(out["ok"]), "error": out.get("error"), "events": ev, "vals": vals, "dir": dir_after,
-                "files": files_after}
+                "files": files_after, "seq": {"import_plus": ops} if ops else "import"}
 
 
 # ----------------------------------------------------------------------------------------------
@@ -439,8 +460,14 @@ def run_case(lab, case, workdir=None):
         dir0, files0 = lab.snapshot(d)
         dec = lab.decoder_obs(d)
         starts = []
-        for _ in range(rd.get("starts", 2)):
-            starts.append(lab.start_sub(home, case.get("hashseed", 0)) if sub else lab.start_inproc(d))
+        specs = rd.get("starts", 2)
+        if isinstance(specs, int):
+            specs = ["import"] * specs
+        for sp in specs:                 # "import" | {"ops": [[kind, arg], ...]}
+            ops = None if sp == "import" else [tuple(o) for o in sp["ops"]]
+            if ops is not None and not all(tuple(o) in lab.pool for o in ops):
+                raise RuntimeError("call outside the pool of modelled calls: %s" % (ops,))
+            starts.append(lab.start_sub(home, case.get("hashseed", 0), ops) if sub else lab.start_inproc(d, ops))
         rounds.append({"dir": dir0, "files": files0, "dec": dec, "starts": starts})
     if sub and not workdir:
         shutil.rmtree(home, ignore_errors=True)
@@ -532,6 +559,18 @@ def _event(e):
                          "cdvt": "ECompileDvt"}[k], _str(e[1]))
 
 
+def _step(o):
+    return "(%s %s)" % ("LoadDvt" if o[0] == "dvt" else "NewModel", _str(o[1]))
+
+
+def _seq(s):
+    if s == "import":
+        return "LVGen.SettingsModels.import_seq"
+    if isinstance(s, dict):
+        return "(LVGen.SettingsModels.import_seq ++ %s)%%list" % L.lst([_step(o) for o in s["import_plus"]])
+    return _memo("list step", L.lst([_step(o) for o in s]))
+
+
 def _sval(v):
     if v[0] == "dvt":
         return "(VDvt %s)" % _val(v[1])
@@ -545,7 +584,7 @@ def render(case, res):
 def _render(case, res):
     rounds = []
     for r in res["rounds"]:
-        starts = [L.record("start_obs", [L.b(s["ok"]),
+        starts = [L.record("start_obs", [_seq(s["seq"]), L.b(s["ok"]),
                                          _memo("list event", L.lst([_event(e) for e in s["events"]])),
                                          _memo("list (sval xvalue)", L.lst([_sval(v) for v in s["vals"]])),
                                          L.b(s["dir"]), _files(s["files"])])
@@ -612,14 +651,18 @@ def _child(req):
         import lingpy                        # noqa: the start under observation
         import lingpy.settings as S
         from lingpy._settings import rcParams
-        for st in req:
+
+        def model_vals(o):
+            sc = getattr(o, "scorer", None)
+            return [digest(getattr(o, "converter", MISSING)), None if sc is None else digest(sc)]
+        for st in req["steps"]:
             if st["kind"] == "dvt":
-                o = tuple(getattr(S, t) for t in st["targets"])
-                out["vals"].append([digest(o), None])
+                out["vals"].append([digest(tuple(getattr(S, t) for t in st["targets"])), None])
             else:
-                o = rcParams[st["key"]]
-                sc = getattr(o, "scorer", None)
-                out["vals"].append([digest(getattr(o, "converter", MISSING)), None if sc is None else digest(sc)])
+                out["vals"].append(model_vals(rcParams[st["key"]]))
+        from lingpy.data.model import Model, load_dvt
+        for kind, arg in req["ops"]:         # calls made after the import, in the same interpreter
+            out["vals"].append([digest(load_dvt(arg)), None] if kind == "dvt" else model_vals(Model(arg)))
     except BaseException as e:               # noqa
         out = {"ok": False, "vals": [], "error": "%s: %s" % (type(e).__name__, e)}
     sys.stdout.write("\nC20CHILD " + json.dumps(out) + "\n")
